@@ -19,8 +19,8 @@ CHECKS = {
              "target's probe goroutine rebuilt the rotation with it (D1's repair; pinned order refuted by a witness); accepted => monitor c01_ok. "
              "Correspondence: directed deploy scenarios (1-4 targets; refused / non-2xx / slow / late / deadline +-1 ns probes; requests before / during / "
              "at yields / after; new / existing / rollout; failed deploys) plus random concurrent scenarios on the real code under the virtual clock; every "
-             "recorded trace must be accepted; monitors c01_ok / c01_deadline_ok and probe-verdict / leak / served-by checks.",
-        note="No axioms. Restart is outside this acceptor; the timeout side is an acceptor rule and a monitor (timing model: C17); traces recorded with GOMAXPROCS(1), no async preemption.",
+             "recorded trace must be accepted; monitors c01_ok / c01_deadline_ok and probe-verdict / leak / served-by checks. Session 4: restarts are inside the acceptor (rule KRestored; props/C01restore.v: a command's balancer is never restored, a restored one is never waited on or slotted, its claims come from picks after the restore within the last rebuilt rotation); c01_forward_after_all_probes restated with the restore disjunct, verbatim for balancers created by commands.",
+        note="No axioms. An old-process command still running across a restart is not modelled; the timeout side is an acceptor rule and a monitor (timing model: C17); traces recorded with GOMAXPROCS(1), no async preemption.",
         technique="Coq proof (state and history invariants over an event-trace acceptor, simulation to the monitor) + kernel-evaluated trace acceptance", ref="§7 C01"),
     "C02": dict(
         text="Theorems over every event trace accepted by model/M5full.v (props/C02.v): complete classification of every response by the request's path "
@@ -76,7 +76,7 @@ CHECKS = {
              "claiming one pair are separated by a release; of any number of racers for the same free pairs exactly one - the first to take "
              "the lock - succeeds; accepted => monitor. Correspondence: conflict-rich random histories on the real router compared step by "
              "step; interleaved deploys on the virtual clock and racing deploys under the real scheduler whose recorded lock-region "
-             "sequences (install/removed hook events with the options given to the availability check) must be accepted by M5own and satisfy c05c_ok.",
+             "sequences (install/removed hook events with the options given to the availability check) must be accepted by M5own and satisfy c05c_ok. Second monitor corr/C05cmd.c05_cmd_ok: ownership of the pairs AS COMMANDED (normalised as documented) after every command - a proxy that files two spellings of one prefix under different keys is consistent with its own state file.",
         note="No axioms. That installService's check-and-set and RemoveService's removal each run under the router's write lock (so that an execution IS a sequence of such regions) is the C18 lock-fact obligation plus the race stress.",
         technique="Coq proof (invariant by induction over command lists; invariant and release argument over sequences of lock regions) + kernel-evaluated correspondence and acceptance", ref="§7 C05"),
     "C06": dict(
@@ -92,7 +92,7 @@ CHECKS = {
              "preserves the gate; the health-check shortcut holds on model/Seq.v; 'pause never refuses' and 'resume uses the current targets' are refuted by "
              "real witnesses and proved outside the D3 / D2 / overlap windows. Correspondence: forced and random schedules of arrivals with pause / resume / "
              "stop / repeated pause / redeploy / timer expiries on the real router under the virtual clock; every trace accepted by both views and judged by "
-             "corr/C07corr.c07_check in the kernel.",
+             "corr/C07corr.c07_check in the kernel. Session 4: accepted => monitor link (props/C07link.v): on traces accepted by the (tightened) gate view and satisfying the side condition c07_side the monitor reports none of the gate-level codes (F_once F_read F_held F_chanwake F_timer F_late F_result F_status); the view was tightened where the link proofs showed slack (timer wake after the generation's close; proxy-made 503/504 naming a target). Directed schedules added: held requests with bodies, repeated pause with another max-pause.",
         note="No axioms. Recorded findings D3, D2, D3-overlap (known_findings/C07.json; proposed repairs in fixes/, not applied). The accepted => monitor link is not proved "
              "(monitor per service name, views per controller). A failing scenario is re-run alone before it is reported.",
         technique="Coq proof (invariants over two event-trace acceptors) + kernel-evaluated trace acceptance + trace monitor with known-finding patterns", ref="§7 C07"),
@@ -118,7 +118,7 @@ CHECKS = {
              "missed meanwhile and on the first later tick otherwise (never overlapping, gap <= max(interval, timeout), re-synchronisation to the grid); "
              "result time and verdict; nothing sent or reported after Close; one requested strict bound refuted with witness and proved in its true form. "
              "Correspondence: per-target interval / timeout / scripted answer delays (ties at +-1 ns around interval, timeout, ticks, stop) on the real "
-             "code under the virtual clock; every probe-sent / probe-apply instant must equal the model's exactly.",
+             "code under the virtual clock; every probe-sent / probe-apply instant must equal the model's exactly. Session 4: restored balancers are inside the acceptor and generated ('restored' family); monitor corr/C09rot.c09_rot_ok (every rebuilt rotation is exactly the healthy targets, each once, in order) with its link theorem and fairness over the HEALTHY targets (props/C09rot.v).",
         note="No axioms. Recorded finding C09-F1 (D12: the end of a Drain writes 'healthy' over a failed probe result; a successful probe flips 'draining' back to "
              "'healthy'). The 503 mapping belongs to C02. Ties between Close-by-deploy-timeout and a tick/result are decided by Go's select and timer heap: the generator keeps "
              "the deploy timeout 500 ns away from the loop's instants.",
@@ -126,7 +126,7 @@ CHECKS = {
     "C10": dict(
         text="Theorems over all cookie header bytes, percentages, allowlists and histories (props/C10.v: exactness, stickiness, monotonicity, "
              "100% total, share bound, float comparison = integer threshold via Flocq, history theorem incl. restart); correspondence: "
-             "real Router with rollout targets, raw Cookie headers incl. FNV preimages at every threshold, split point read back from the state file.",
+             "real Router with rollout targets, raw Cookie headers incl. FNV preimages at every threshold, split point read back from the state file. Histories in which one side's targets fail their probes and recover (corr/C10health.v): the split decision does not look at health; the chosen side's outage gives the proxy's 503.",
         note="Axioms only under c10_threshold* (stdlib/Flocq: classic, functional_extensionality_dep, sig_forall_dec, sig_not_dec, primitive float/int63 specs); "
              "everything else closed. net/http cookie parser and hash/fnv modelled.",
         technique="Coq proof (arithmetic + Flocq float/integer link + finite sweeps lifted by lemma) + kernel-evaluated correspondence", ref="§7 C10"),
@@ -157,14 +157,14 @@ CHECKS = {
         text="Theorems on model/Url.v + model/Headers.v over all byte strings (props/C13.v: path round trip for valid encodings, decoded path kept, "
              "identity without stripping, literal-prefix stripping byte for byte, query verbatim, X-Forwarded-* table, request id/start policy, "
              "end-to-end header passage); correspondence: raw requests over loopback TCP through the real handler chain to a byte-recording "
-             "target, generated/malformed paths, queries, header sets, response shapes; strict monitor evaluated in the Coq kernel.",
+             "target, generated/malformed paths, queries, header sets, response shapes; strict monitor evaluated in the Coq kernel. Also: groups of 24 exchanges in flight together to one target (each with its own path and query), a service with the root prefix and a sub-path (stripping), a service with a 250 ms target timeout and bodies arriving in two parts 600 ms apart.",
         note="No axioms. net/url, net/http and ReverseProxy wire behaviour (hop-by-hop removal, Date, sniffing, gzip) modelled and compared, not proved; "
              "six recorded findings (known_findings/C13.json: invalid path bytes re-encoded, sniffed Content-Type, transparent gunzip, User-Agent quirks, "
              "Connection-listed request id dropped, 304 loses Content-Type); repaired defect: prefix stripping lost percent-encoding.",
         technique="Coq proof (codec round-trip lemmas over bytes) + kernel-evaluated correspondence with known-finding patterns", ref="§7 C13"),
     "C14": dict(
         text="Theorems over all limits, chunkings and handler operation sequences on model/Buffer.v (props/C14.v); the model is tied to buffer.go "
-             "and both middlewares by a correspondence run evaluated in the Coq kernel (exhaustive small scope + random Target-level exchanges).",
+             "and both middlewares by a correspondence run evaluated in the Coq kernel (exhaustive small scope + random Target-level exchanges). HEAD exchanges judged by corr/C14head.c14_head_bad (status and declared Content-Length reach the client); upgrade offers the target declines.",
         note="No axioms. net/http, ReverseProxy, os temp files modelled not verified. Note: built with Go >= 1.25 the request spill file is never closed "
              "(ReverseProxy wraps the body); the repository pins 1.24.2 where it is.",
         technique="Coq proof (induction over write sequences) + kernel-evaluated differential correspondence", ref="§7 C14"),
@@ -173,14 +173,14 @@ CHECKS = {
              "response header block yields a complete response with status = classification (502/504 for target-side causes); page = custom, else "
              "built-in, else <h1>; a fault after the header block aborts without an error page; in-flight bookkeeping over an event acceptor: an ended "
              "request is in no later drain snapshot). Correspondence: fault enumeration with a byte-level scripted TCP target behind the target's own "
-             "http.Transport x buffering x custom pages, through a real Server to a raw TCP client; exact timeout boundary on the virtual clock.",
-        note="No axioms. Which Go error each wire fault produces and how an aborted response looks on the wire are net/http behaviour: enumerated and compared, not proved. "
+             "http.Transport x buffering x custom pages, through a real Server to a raw TCP client; exact timeout boundary on the virtual clock. A custom 504 page that is a template with a field reference.",
+        note="Third recorded finding C15-F3 (a consequence of F1: a request with an unread body stuck in an unbounded dial stays in flight, a later drain waits for it; corr/C15f3.v). No axioms. Which Go error each wire fault produces and how an aborted response looks on the wire are net/http behaviour: enumerated and compared, not proved. "
              "Two recorded findings (known_findings/C15.json: the target timeout covers neither the dial nor the request write; proposal in fixes/).",
         technique="Coq proof (case analysis; invariant over an event acceptor) + kernel-evaluated fault-enumeration correspondence with known-finding patterns", ref="§7 C15"),
     "C16": dict(
         text="Theorems over all states/requests (redirect incl. host-without-port for every well-formed Host incl. IPv6 literals, refusal), all reachable "
              "states (inheritance invariant, certificates only for bound TLS root-path services, ACME wildcard refusal); tied to service.go, service_map.go, "
-             "router.go, cert.go and autocert's pre-ACME decisions by correspondence including real Router.GetCertificate calls.",
+             "router.go, cert.go and autocert's pre-ACME decisions by correspondence including real Router.GetCertificate calls. Services with header forwarding and client headers claiming another scheme; restart with unreadable certificate files (corr/C16fault.v).",
         note="No axioms. TLS handshake, ACME exchange and non-ASCII IDNA not modelled; ACME challenge paths are residue. Repaired defect (IPv6 redirect lost brackets) kept as refuted lemma on the pinned function.",
         technique="Coq proof (per-byte case analysis, invariants over exec) + kernel-evaluated differential correspondence on a virtual clock", ref="§7 C16"),
     "C17": dict(
@@ -192,7 +192,7 @@ CHECKS = {
              "later probe to such a name is owed to another target; pinned D4 refuted by a witness; link proved: accepted => bounds part of the monitor. "
              "Correspondence: adversarial scenarios on the real code under the virtual clock (targets never answering / answering at the deploy deadline "
              "+-1 ns / flapping; requests hanging or ending at the drain deadline +-1 ns; timeouts incl. 0 and 1 ns; overlapping commands; >= 12 probe "
-             "intervals observed after returns); every recorded trace must be accepted and satisfy the monitor c17_ok.",
+             "intervals observed after returns); every recorded trace must be accepted and satisfy the monitor c17_ok. Real-scheduler stress: a redeploy and a removal of one service issued together - afterwards every target still probed must belong to a listed service.",
         note="No axioms. Zero CPU time and exact timers are acceptor rules validated on every trace, not hypotheses; traces with armed yields are checked structurally only; "
              "promptness is a chain-event property, not the closed formula; the probe part of the monitor is tied to the view only by evaluating both on every trace; "
              "no upgraded connections; D11/D14 observed, undecided.",
@@ -203,7 +203,7 @@ CHECKS = {
              "c18_no_deadlock with the translator contract as explicit hypotheses; no command of any sequential history panics (M4). Tie = TRANSLATOR: "
              "harness/lockfacts re-extracts lock/access/call/go/close facts from /repo's source on every run into a generated LockFacts.v; two vm_compute "
              "obligations (facts guarded w.r.t. the written discipline, lock order acyclic) are discharged on them. A -race stress under the real "
-             "scheduler (mixed scenarios + targeted two-sided ones, watchdog, panic capture) searches for a concrete failing schedule.",
+             "scheduler (mixed scenarios + targeted two-sided ones, watchdog, panic capture) searches for a concrete failing schedule. The translator also reports a lock still held at a return statement; the stress deploys several targets that stay unhealthy and issues commands on a restored router.",
         note="No axioms. Trusted: the translator (type-level lock identities, freshness analysis; blind to captured locals and shared slice elements) and the ByOrder/Confined classes "
              "of the written discipline; the dynamic part only searches. No open finding: six races repaired (fixed.json), the last one - the TLS flags of sub-path "
              "services rewritten under the router lock and read without a common lock - in fix ce2a27e.",
@@ -213,14 +213,14 @@ CHECKS = {
              "the client is told under a coherence condition every path of the modelled chain satisfies; logged length = sum of bytes the underlying "
              "writer accepted; exactly one record on return and on panic; host/path/query/method/request id/service/target/extra headers as projections). "
              "Correspondence: (a) the real LoggingMiddleware around scripted handlers/writers (all call sequences up to length 2/3), (b) a real Server with "
-             "captured JSON records joined with what a raw client and scripted targets saw for 24 ending classes x header lists x request ids x queries.",
+             "captured JSON records joined with what a raw client and scripted targets saw for 24 ending classes x header lists x request ids x queries. A buffering service with a 1 KiB memory share (responses copied from the spill file).",
         note="No axioms. That a deferred call runs once (also on panic) is Go semantics, observed; net/http's status rules modelled. Two recorded findings "
              "(known_findings/C19.json: HEAD + proxy error page logged with the page length; server-generated Date not visible to the logger); repaired defect "
              "59cbdb7 (buffered 103 Early Hints lost the final status) kept as refuted lemma on the pinned writer.",
         technique="Coq proof (fold invariants over writer operations, case analysis over chain endings) + kernel-evaluated two-level correspondence", ref="§7 C19"),
     "C20": dict(
         text="Theorems on model/Cli.v (props/C20.v: option precedence, atoi/ParseBool, deploy pre-run table, exit rule, list renderer round trip); "
-             "correspondence on the BUILT BINARY (run option matrix, deploy validation matrix without a proxy, every client command against a running proxy, list output).",
+             "correspondence on the BUILT BINARY (run option matrix, deploy validation matrix without a proxy, every client command against a running proxy, list output). A redeploy that outlasts the deploy timeout while draining (real 4 s request in flight); non-ASCII list cells; a command that leaves before the proxy's answer is judged by the exit rule.",
         note="No axioms. cobra/pflag parsing and the RPC layer are only compared. Repaired defect (TLS without host not refused) kept as refuted lemma on the pinned pre-run.",
         technique="Coq proof (decision tables, string functions) + kernel-evaluated correspondence against the binary", ref="§7 C20"),
 }
